@@ -7,6 +7,7 @@ Line protocol for C02 (stream energy balance; `Float` instance of the model).
        (eb: energy_balance, default 1; vle default 0; vres: what the recorded `stream.vle(...)` call left — the
         temperature and the phases holding material — or that it raised; `-` when it was not called)
   set  r=<st> x=<f> kind=<H|h|S|Sg> sol=…
+  iter kind=<HP|xHP|SP|xSP> T=<f> X=<f> XT=<f> Cn=<f>          -> next=<f>   (one step of the solvers' fixed-point map)
   sep  r=<st> Hs=<f> Ho=<f> none=<0|1> oe=<other empty 0|1> same=<0|1> ea=<empty afterwards 0|1> kind=H sol=…
 
   <st>    = <ph>/<T>/<P>/<empty 0|1>
@@ -26,7 +27,7 @@ Answer (a `mix` line additionally ends with ` vs=<H:<f>:<P> | T:<f>:<P> | ->`, t
 single inlet's `H` when nothing had to be assigned, 0 for an emptied receiver.  `q` are the phase
 states the model asked the solver for, `hyp` the hypothesis monitor over the calls the model used:
 the returned T lies in the physical domain [150, 1500] K (`range`; the adapter prints the same test, it is the
-precondition under which the slope allowance means anything), `|resid| ≤ rtol·|target| + 1e-5 K · slope` (rtol 1e-6 for H, h, Sg = entropy of a gas; 2e-5 for S) and `slope > 0`.
+precondition under which the slope allowance means anything), `|resid| ≤ rtol·|target| + 2e-6 K · slope` (rtol 1e-9 for H, h, Sg = entropy of a gas; 2e-5 for S) and `slope > 0`.
 -/
 namespace Driver.C02
 open ThermoVerif.EnergyBalance Driver
@@ -123,7 +124,7 @@ def monitor (calls : List Call) (n : Nat) (target : Float) (rtol : Float) : Stri
       | some T =>
         if !(T ≥ 150.0 && T ≤ 1500.0) then s!"range@{i}"
         else if !(c.slope > 0.0) then s!"slope@{i}"
-        else if !(absF c.resid ≤ rtol * absF target + 1e-5 * c.slope) then s!"resid@{i}"
+        else if !(absF c.resid ≤ rtol * absF target + 2e-6 * c.slope) then s!"resid@{i}"
         else go (i + 1) t
   go 0 calls
 
@@ -137,7 +138,7 @@ def outStr : Outcome → String
 def b01 (b : Bool) : String := if b then "1" else "0"
 
 /-- `S`: entropy with liquid involved (thermo's liquid entropy integral is noisy); `Sg`: entropy of a gas -/
-def rtolOf (kind : String) : Float := if kind == "S" then 2e-5 else 1e-6
+def rtolOf (kind : String) : Float := if kind == "S" then 2e-5 else 1e-9
 
 
 def showQs (qs : List PhaseState) : String :=
@@ -204,12 +205,26 @@ def stepSep (toks : List String) : Option String := do
     | none => Hs
   pure (answer o H calls H kind)
 
+/-- `iter kind=<HP|xHP|SP|xSP> T= X= XT= Cn=`: one step of the model's iteration map (`iterHP` / `iterSP`, the maps
+`newton_fixed_point_iff` and `entropy_step_fixed_point_iff` speak about), compared bit for bit with
+`iter_T_at_HP` / `xiter_T_at_HP` / `iter_T_at_SP` / `xiter_T_at_SP` of thermosteam/mixture/mixture.py. -/
+def stepIter (toks : List String) : Option String := do
+  let kind ← kv toks "kind"
+  let T ← (kv toks "T") >>= parseFloat?
+  let X ← (kv toks "X") >>= parseFloat?
+  let XT ← (kv toks "XT") >>= parseFloat?
+  let Cn ← (kv toks "Cn") >>= parseFloat?
+  if kind == "HP" || kind == "xHP" then pure s!"next={showFloat (iterHP T X XT Cn)}"
+  else if kind == "SP" || kind == "xSP" then pure s!"next={showFloat (iterSP Float.exp T X XT Cn)}"
+  else none
+
 def step (st : Unit) (line : String) : Unit × String :=
   let toks := splitWs line
   let r := match toks with
     | "mix" :: rest => stepMix rest
     | "set" :: rest => stepSet rest
     | "sep" :: rest => stepSep rest
+    | "iter" :: rest => stepIter rest
     | _ => none
   (st, r.getD "bad-op")
 
